@@ -136,6 +136,16 @@ enum Res {
 
 fn run_one(name: &str, ops: &[&str]) -> Res {
     let mut c = Cx::new();
+    if name == "cls::uncond_branch_imm" {
+        // the one public instruction-class encoder (used outside of the assembler to patch calls)
+        if ops.len() != 2 {
+            return Res::Skip("arity".into());
+        }
+        let (Ok(op), Ok(imm)) = (ops[0].parse::<u32>(), ops[1].parse::<i32>()) else {
+            return Res::Skip("bad-number".into());
+        };
+        return Res::Ok(vec![cls::uncond_branch_imm(op, imm)]);
+    }
     if let Err(e) = dispatch(&mut c, name, ops) {
         return Res::Skip(e);
     }
